@@ -486,7 +486,13 @@ impl LazySeq {
         } else {
             Ok(LazySeq {
                 lock: ReentrantMutex::new(RefCell::new(if gen.is_none() {
-                    LazySeqState::Realized(seq.unwrap().unbind())
+                    // A realized *empty* sequence arrives as Python `None`, which PyO3
+                    // hands over as an absent argument (e.g. `with_meta` on a LazySeq
+                    // whose seq is empty).
+                    LazySeqState::Realized(match seq {
+                        Some(s) => s.unbind(),
+                        None => py.None(),
+                    })
                 } else {
                     LazySeqState::Initialized(gen.unbind())
                 })),
